@@ -73,7 +73,9 @@ class Report:
         if not o.ok:
             self._printed = getattr(self, "_printed", {})
             self._printed[o.key] = self._printed.get(o.key, 0) + 1
-        if self.verbose or (not o.ok and self._printed[o.key] <= 2):
+            if not hasattr(self, "_known_keys"):
+                self._known_keys = {e["key"] for e in load_known_findings() if e.get("property") == self.prop and e.get("status") == "open"}
+        if self.verbose or (not o.ok and self._printed[o.key] <= 2 and o.key not in self._known_keys):
             print("  [%s] %s :: %s %s%s" % ("ok" if o.ok else "FAIL", rule, instance,
                                             ("@ " + loc + " ") if loc else "", ("-- " + detail) if detail else ""))
         return o.ok
